@@ -6,9 +6,13 @@ fail=0
 for p in mutants/*.patch seeded/*/patch.diff; do
   case "$p" in mutants/*) id=$(basename "$p" | cut -c1-3);; *) id=$(basename "$(dirname "$p")" | cut -c1-3);; esac
   [ "$(basename $p)" = "C18-m3-racy-latch.patch" ] && extra="VERIF_MIRI=1 VERIF_MIRI_SEEDS=8" || extra=""
-  out=$(env $extra VERIF_MIN_REPLAYS=${REGRESS_MIN_REPLAYS:-0} VERIF_SCALE=${REGRESS_SCALE:-1} tools/mutant.sh "$p" "$id" 2>&1 | tail -1)
+  out=$(env $extra VERIF_MIN_REPLAYS=${REGRESS_MIN_REPLAYS:-0} VERIF_SCALE=${REGRESS_SCALE:-1} tools/mutant_wt.sh "$p" "$id" 2>&1 | tail -1)
   case "$out" in *rc=1) echo "caught  $p";; *) echo "MISSED  $p ($out)"; fail=1;; esac
 done
+# scratch worktree and its build output are no longer needed
+wt="${MUTWT:-/tmp/wf-mutwt}"; tag=$(echo "$wt" | md5sum | cut -c1-8)
+git -C /repo worktree remove --force "$wt" 2>/dev/null; rm -rf "target/alt-$tag"
+[ "${REGRESS_SKIP_CLEAN:-0}" = 1 ] && exit $fail
 for id in C08 C10 C14 C15 C17 C18 C19 C20; do
   ./check $id quick >/dev/null 2>&1; rc=$?
   [ $rc -eq 0 ] && echo "clean   $id" || { echo "ALARM   $id rc=$rc"; fail=1; }
